@@ -414,6 +414,15 @@ def check(ctx):
                             why = (f"the attribute is deleted only if {t}: {norm(sd)} reads the ITEM store, which only ever holds "
                                    f"columns (the placeholder lives in the attribute store), so the test is constant-false and "
                                    f"the attribute is never deleted: after removal the column name is still an attribute")
+            for k, t in facts:
+                if "hasattr(" in t and t.startswith("hasattr(") and k == "F":
+                    ok = False
+                    why = (f"the placeholder attribute is deleted only when hasattr(...) is FALSE: for a column that has one nothing is "
+                           f"deleted (the name stays an attribute), for one that has none __delattr__ raises AttributeError")
+                if "is_builtin_attr" in t and k == "T" and not t.startswith("not "):
+                    ok = False
+                    why = (f"the attribute is deleted only for names that ARE built-in attributes: a column's placeholder is never "
+                           f"deleted, and removing a column named like a method would delete nothing it should")
         ctx.ob("STO-5", m, f"{name}: remove key and placeholder", dels[0] if dels else m.node, ok, why, chain=chain,
                clause="once removed it is reachable by neither")
     dela = repo.fn(f"{DF}.__delattr__")
